@@ -207,6 +207,13 @@ def judge(spec, rec):
     else:
         pre = target_grade(rh, slot)   # the cheating input minus its neutral term earns credit
 
+    # --- history: just before, the same grader refused a submission that USES everything the honest answer uses (required
+    # functions included) but is nested far too deeply to be parsed; whatever that failed attempt left behind must not
+    # help the next submission (a seeded change leaked the names of such a failed parse into the next expression)
+    if isinstance(cheat, str) and isinstance(honest, str) and len(cheat) % 2 == 0:
+        call(G, None, honest + '+' + '(' * 130 + '1' + ')' * 130)
+        ncalls += 1
+        tags.append('after-a-failed-deeply-nested-submission')
     # --- the restricted grader must refuse
     st_, r = run(G, cheat, seed)
     ncalls += 1
